@@ -19,7 +19,9 @@ from .source import Repo, Unresolved, mutate
 from .engine import Engine
 
 VERIF = os.path.dirname(os.path.dirname(os.path.abspath(__file__)))
-REPLAYS = os.path.join(VERIF, 'replays')
+# experiments on scratch copies of the repository (tools/try_patch.sh) write their outputs elsewhere
+OUTDIR = os.environ.get('VERIF_OUTDIR', VERIF)
+REPLAYS = os.path.join(OUTDIR, 'replays')
 PY_NATIVE = '/venv/bin/python'
 
 
@@ -47,11 +49,48 @@ class Unit:
         self.slices = slices or {}
 
 
+def function_hash(repo, qual):
+    import hashlib
+    import ast as _ast
+    try:
+        node = repo.func(qual)
+        return hashlib.sha256(_ast.dump(node).encode()).hexdigest()[:16]
+    except Exception:
+        return None
+
+
+_CONTRACTED = None
+
+
+def contracted_functions():
+    """every function that some unit of some property claims (so a missing summary for one of them is a harness
+    error, never a reason to inline it silently)"""
+    global _CONTRACTED
+    if _CONTRACTED is None:
+        import importlib
+        out = set()
+        try:
+            from contracts.registry import REGISTRY
+            for prop, ent in REGISTRY.items():
+                try:
+                    mod = importlib.import_module(ent['module'])
+                except Exception:
+                    continue
+                for u in getattr(mod, 'UNITS', []):
+                    out.update(u.functions)
+        except Exception:
+            pass
+        out.discard('main')
+        _CONTRACTED = out
+    return _CONTRACTED
+
+
 def run_unit(unit, fn_override=None, canary_expect=None):
     """returns dict with obligations aggregated by name."""
     repo = Repo()
     eng = Engine(repo, schema=unit.schema, inline=unit.inline, unit=unit.name,
                  fn_override=fn_override, canary_expect=canary_expect)
+    eng.contracted = contracted_functions()
     t0 = time.time()
     res = {'unit': unit.name, 'error': None, 'obligations': {}, 'paths': 0}
     try:
@@ -85,7 +124,7 @@ def run_unit(unit, fn_override=None, canary_expect=None):
     res['solver_s'] = round(eng.solver_time, 3)
     res['wall_s'] = round(time.time() - t0, 3)
     res['rechecked'] = dict(eng.rechecked)
-    res['inlined'] = sorted(eng.inlined_seen)
+    res['inlined'] = sorted(eng.inlined_seen) + ['%s (automatic: loop-free helper without a unit)' % q for q in sorted(eng.auto_inlined)]
     res['summaries_used'] = sorted(eng.summaries_used)
     from . import builtins as B
     res['axioms'] = sorted(B.AXIOMS_USED)
@@ -255,6 +294,20 @@ def check_property(prop, modname, tier='quick', native=None, workers=None, extra
             # the source no longer has the shape this canary mutates (edited tree): not a verdict
             canaries[-1]['not_applicable'] = True
             continue
+        if not killed and results[uname]['error']:
+            # the unit itself could not be processed on this tree (reported as undecided): its canaries say nothing
+            canaries[-1]['not_applicable'] = True
+            continue
+        if not killed and r.get('error') and not r['error'].startswith('CRASH'):
+            # the mutated function could not be executed although the unmutated one could.  If the function was
+            # edited since the baseline was accepted, the mutation (written against the old text) may simply not
+            # fit any more: not a verdict.  On an unedited function it is a checker problem, as before.
+            cur = function_hash(repo, c.qual)
+            old = (baseline or {}).get('canary_function_hashes', {}).get(c.qual)
+            if old is not None and cur != old:
+                canaries[-1]['not_applicable'] = True
+                canaries[-1]['note'] = 'function edited since the baseline; mutated version not executable: %s' % r['error']
+                continue
         if not killed:
             crashes.append((uname, 'canary %s survived (expected a failure of %s; got %s; error=%s)'
                             % (cname, c.expect, failed[:4], r.get('error'))))
@@ -373,8 +426,8 @@ def check_property(prop, modname, tier='quick', native=None, workers=None, extra
         cov.update(extra_evidence)
     ev = {'property_id': prop, 'tier': tier, 'seed': seed, 'level': level, 'coverage': cov,
           'assumptions': list(assumptions), 'wall_s': round(time.time() - t0, 2), 'violations': nviol}
-    os.makedirs(os.path.join(VERIF, 'evidence'), exist_ok=True)
-    with open(os.path.join(VERIF, 'evidence', prop + '.json'), 'w') as f:
+    os.makedirs(os.path.join(OUTDIR, 'evidence'), exist_ok=True)
+    with open(os.path.join(OUTDIR, 'evidence', prop + '.json'), 'w') as f:
         json.dump(ev, f, indent=1, default=str)
     print('%s: %d/%d obligations discharged, %d canaries killed, %d known findings, %d violations, exit %d (%.1fs)'
           % (prop, n_dis, n_ob, sum(1 for c in canaries if c['killed']), len(set(f_.get('id') for f_, _ in known_hit)), nviol,
@@ -384,7 +437,8 @@ def check_property(prop, modname, tier='quick', native=None, workers=None, extra
     elif os.environ.get('VERIF_ACCEPT') == '1' and exit_code == 0:
         os.makedirs(os.path.join(VERIF, 'baseline'), exist_ok=True)
         with open(baseline_path, 'w') as f:
-            json.dump({'property': prop, 'obligations': sorted(o['name'] for o in ob_list if o['discharged'])},
+            json.dump({'property': prop, 'obligations': sorted(o['name'] for o in ob_list if o['discharged']),
+                       'canary_function_hashes': {c.qual: function_hash(repo, c.qual) for u in units for c in u.canaries}},
                       f, indent=1)
         print('baseline written: %s' % baseline_path)
     return exit_code
